@@ -421,3 +421,72 @@ def loc_arguments_specs(prop='C06'):
     return [Fragment('fst_locs:_loc_arguments', prop, 'loc.arguments', cases, run, min_obligations=3,
                      notes='FunctionDef / AsyncFunctionDef parent; next_find / prev_find under assumed contracts (string '
                            'searches); any number of type parameters')]
+
+
+def flush_structural(rep, prop='C02'):
+    """C02.flush.raw_put (structural, all of src/fst): a _put_src call WITHOUT the tail argument splices text without
+    offsetting - and therefore without the cache flush the offset walk performs.  Every such call on a live tree must be
+    followed immediately (next statement of the same block) by `<same receiver>._touchall(True, ...)`, which flushes the
+    whole parent chain (a block statement's cached `bloc` includes the line comment of its last child).  Receivers that
+    are private copies / trees under construction are exempt and listed."""
+    import ast
+    import glob
+    import os
+    from pyvc import frontend
+    PRIVATE = {'copy_root', 'fst_', 'put_fst', 'code', 'new_fst', 'tmp', 'copy'}
+    sites, exempt = [], []
+
+    def visit_block(stmts, fn, mod):
+        for i, st in enumerate(stmts):
+            for n in ast.walk(st) if isinstance(st, (ast.Expr, ast.Assign, ast.AugAssign, ast.AnnAssign, ast.Return)) else []:
+                if isinstance(n, ast.Call) and isinstance(n.func, ast.Attribute) and n.func.attr == '_put_src':
+                    plain = [a for a in n.args if not isinstance(a, ast.Starred)]
+                    starred = [a for a in n.args if isinstance(a, ast.Starred)]
+                    nargs = len(plain) + 4 * len(starred)
+                    if nargs > 5 or any(k.arg == 'tail' for k in n.keywords):
+                        continue
+                    recv = ast.unparse(n.func.value)
+                    if recv.split('.')[0] in PRIVATE:
+                        exempt.append((mod, fn.name, n.lineno, recv))
+                        continue
+                    nxt = stmts[i + 1] if i + 1 < len(stmts) else None
+                    ok = (isinstance(nxt, ast.Expr) and isinstance(nxt.value, ast.Call)
+                          and isinstance(nxt.value.func, ast.Attribute) and nxt.value.func.attr == '_touchall'
+                          and ast.unparse(nxt.value.func.value) == recv and nxt.value.args
+                          and isinstance(nxt.value.args[0], ast.Constant) and nxt.value.args[0].value is True)
+                    sites.append((mod, fn.name, n.lineno - fn.lineno, recv, ok))
+            for fld in ('body', 'orelse', 'finalbody'):
+                sub = getattr(st, fld, None)
+                if isinstance(sub, list) and sub and isinstance(sub[0], ast.stmt):
+                    visit_block(sub, fn, mod)
+            for h in getattr(st, 'handlers', []) or []:
+                visit_block(h.body, fn, mod)
+    for path in sorted(glob.glob(os.path.join(frontend.SRC, '*.py'))):
+        mod = os.path.basename(path)[:-3]
+        tree = frontend.module(mod).tree
+        for fn in ast.walk(tree):
+            if isinstance(fn, (ast.FunctionDef, ast.AsyncFunctionDef)):
+                visit_block(fn.body, fn, mod)
+
+    class _S:
+        name = 'flush after a non-offsetting text splice (structural)'
+        notes = 'every _put_src without tail on a live receiver is followed by <receiver>._touchall(True, ...)'
+    seen = set()
+    for mod, fname, rel, recv, ok in sites:
+        key = f'{prop}.flush.raw_put.{mod}.{fname}.L{rel}'
+        if (mod, fname) not in seen:
+            seen.add((mod, fname))
+            try:
+                q = fname
+                rep.function(frontend.locate(f'{mod}:{q}'), _S)
+            except Exception:
+                pass
+        rep.other('structural', key, ok, detail=f'{recv}._put_src(...) without tail at line +{rel} of {mod}:{fname}',
+                  key=f'{prop}.flush.raw_put.{mod}.{fname}',
+                  replay={'site': [mod, fname, rel, recv], 'verifier_output': 'the statement after the splice is not '
+                          '<receiver>._touchall(True, ...): cached locations of the parents (bloc) go stale'})
+    rep.extra['raw_put_sites'] = [list(s) for s in sites]
+    rep.extra['raw_put_exempt_private_receivers'] = [list(s) for s in exempt]
+    if len(sites) < 2:
+        rep.checker_error(f'only {len(sites)} non-offsetting _put_src sites found (anchor changed?)')
+    return sites, exempt
